@@ -523,6 +523,10 @@ def print_nodes(nodes, depth, out):
                 print_nodes(n[2], depth + 1, out)
         elif k == "children":
             out.append(ind + "= @children")
+        elif k == "raw":
+            # fault injection: lines printed as they are behind the block's indentation
+            for l in n[1]:
+                out.append(ind + l)
         else:
             raise ValueError(k)
 
@@ -697,7 +701,7 @@ class Denote:
             return s
         if k in ("text", "script", "uscript", "utext"):
             return self.content(n, env, loc) + "\n"
-        if k in ("stmt", "rcomment"):
+        if k in ("stmt", "rcomment", "raw"):
             return ""
         if k == "comment":
             if n[1] is not None:
@@ -818,3 +822,31 @@ def gen_env(rng, strings=None):
         "MB": {k: rng.random() < 0.6 for k in rng.sample(["on", "off", "x y", "d&e", ""], rng.randint(0, 4))},
         "Fail": [False] * 4,
     }
+
+
+def blocks_of(nodes, acc=None):
+    """every child list of a template body into which a sibling can be inserted"""
+    acc = [] if acc is None else acc
+    acc.append(nodes)
+    for n in nodes:
+        k = n[0]
+        if k == "el" and n[3]:
+            blocks_of(n[3], acc)
+        elif k == "if":
+            blocks_of(n[2], acc)
+            for _, b in n[3]:
+                blocks_of(b, acc)
+            if n[4] is not None:
+                blocks_of(n[4], acc)
+        elif k == "for":
+            blocks_of(n[3], acc)
+        elif k == "switch":
+            for _, b in n[2]:
+                blocks_of(b, acc)
+            if n[3] is not None:
+                blocks_of(n[3], acc)
+        elif k == "comment" and n[2]:
+            blocks_of(n[2], acc)
+        elif k == "render" and n[2]:
+            blocks_of(n[2], acc)
+    return acc
